@@ -6,7 +6,7 @@
     acceptance means.  ([instr_at code pc]: the instruction at program counter [pc];
     [succs pc i]: its control-flow successors; [len]: the exit.) *)
 From Coq Require Import ZArith List Bool.
-From HPBF Require Import Cell IO BC BCWf BCWfProofs BCProofs.
+From HPBF Require Import Cell IO BC BCWf BCHavoc BCWfProofs BCProofs BCHavocProofs.
 Import ListNotations.
 Open Scope Z_scope.
 
@@ -61,6 +61,37 @@ Theorem C11_never_leaves_code : forall num_regs fuse p, bc_wf num_regs fuse p = 
   match bc_run w e limited budget fuel p with Errored _ _ => False | _ => True end.
 Proof. intros n f p H w e lim b fu. exact (run_safe n f p H w e lim b fu). Qed.
 
+(** the liveness clause read semantically: the JIT keeps only the temporaries declared live in
+    registers across an instruction and may use every other register as scratch.  [bc_run_h]
+    makes that explicit — after every non-branch instruction each register temporary that is
+    neither declared live nor written by it receives an arbitrary value [hv fuel t] — and on an
+    accepted program no choice of those values is observable: same outcome kind, tape, pointer,
+    program counter and I/O history as the plain semantics, for every fuel *)
+Theorem C11_nonlive_registers_unobservable : forall num_regs fuse p, bc_wf num_regs fuse p = true ->
+  forall w e hv fuel,
+  match bc_run_h w e num_regs hv fuel p, bc_run w e false 0 fuel p with
+  | Done h, Done s | Stopped h, Stopped s | OutOfFuel h, OutOfFuel s =>
+      bc_tape h = bc_tape s /\ bc_ptr h = bc_ptr s /\ bc_pc h = bc_pc s /\ bc_io h = bc_io s
+  | Errored _ _, Errored _ _ => True
+  | _, _ => False
+  end.
+Proof. exact havoc_unobservable. Qed.
+
+(** non-vacuity of the clobbering: the checker accepts [keep [0;0;1;0;0]] (the temporary is declared
+    live across the output between its definition and its use); with the live bit dropped the
+    checker rejects the program, and then the clobbered register *is* observable (12 vs 10) *)
+Definition env5 : env := {| input := [5]; in_absent := false; in_fail_at := None; out_present := true; out_fail_at := None |}.
+Definition keep (l : list Z) : bprog :=
+  {| bp_temps := 1; bp_min := 0; bp_max := 1; bp_live := l;
+     bp_code := [Inp 0; Copy (Tmp 0) (Mem 0); Outp 0; Add (Mem 1) (Mem 0) (Tmp 0); Outp 1] |}.
+Example C11_clobbering_is_observable_when_rejected :
+  bc_wf 2 false (keep [0;0;1;0;0]) = true /\ bc_wf 2 false (keep [0;0;0;0;0]) = false /\
+  match bc_run_h 8 env5 2 (fun _ _ => 7) 10 (keep [0;0;0;0;0]), bc_run 8 env5 false 0 10 (keep [0;0;0;0;0]) with
+  | Done h, Done s => trace (bc_io h) = [EvOut 12; EvOut 5; EvIn 5] /\ trace (bc_io s) = [EvOut 10; EvOut 5; EvIn 5]
+  | _, _ => False
+  end.
+Proof. vm_compute. repeat split; reflexivity. Qed.
+
 (** non-vacuity: a small program the checker accepts, with a loop, a temporary and a live set *)
 Definition demo : bprog :=
   {| bp_temps := 1; bp_min := 0; bp_max := 1; bp_live := [0; 0; 1; 0; 0];
@@ -80,3 +111,4 @@ Print Assumptions C11_temps_in_range.
 Print Assumptions C11_defined_before_use.
 Print Assumptions C11_live_declared.
 Print Assumptions C11_never_leaves_code.
+Print Assumptions C11_nonlive_registers_unobservable.
